@@ -1,5 +1,5 @@
 (* RunnerP.v -- the serial runner: every task starts only after all its dependencies finished. *)
-From DoitV Require Import Base Dispatch Runner DispatchP DispatchInv.
+From DoitV Require Import Base Dispatch Runner DispatchP DispatchInv RunnerTr.
 Open Scope N_scope.
 
 (* ---------- traces ---------- *)
@@ -91,7 +91,7 @@ Qed.
 
 Lemma RI_disp d d' tr y : RI d tr -> disp_post tasks d d' y -> RI d' tr.
 Proof.
-  intros [I A Q S L O] (I' & A' & Q' & St & G & _). split; auto.
+  intros [I A Q S L O] (I' & A' & Q' & St & G & _ & _). split; auto.
   - eapply Static_grows; eauto.
   - intros x Hx. apply L. unfold DispatchInv.final in *. rewrite <- St. exact Hx.
 Qed.
@@ -326,6 +326,33 @@ Proof.
   - apply Hlater; [discriminate|exact Hs].
 Qed.
 
+Lemma select_first_true r k r1 :
+  n_st (node_of (r_d r) k) = SNone -> select_task r k = (true, r1) -> is_nil (t_setup (get_task k)) = true.
+Proof.
+  intros Est E. unfold Runner.select_task in E. rewrite Est in E.
+  destruct (negb (is_nil (n_ign (node_of (r_d r) k))) || t_dbignore (get_task k)); [discriminate|].
+  destruct (negb (is_nil (n_bad (node_of (r_d r) k)))); [discriminate|].
+  destruct (t_check (get_task k)); destruct always; cbv beta iota zeta in E; try discriminate;
+    destruct (is_nil (t_setup (get_task k))); auto; discriminate.
+Qed.
+
+Lemma select_true_spent r k r1 :
+  RI (r_d r) (r_tr r) -> handed (r_d r) k -> select_task r k = (true, r1) -> spent tasks (r_d r1) k.
+Proof.
+  intros HR HK E. destruct (select_task_post r k true r1 HR HK E) as (_ & _ & _ & Pc & _ & _).
+  unfold spent. rewrite Pc. destruct (h_pc _ _ HK) as [Hp|Hp]; [|left; exact Hp].
+  right. split; auto. eapply select_first_true; [|exact E]. apply (h_first _ _ HK Hp).
+Qed.
+
+(* ---------- no task is executed twice ---------- *)
+Record XI (d : dstate) (tr : list event) : Prop := {
+  xi_spent : forall k, In k (execs tr) -> spent tasks d k;
+  xi_nodup : NoDup (execs tr)
+}.
+
+Lemma XI_pc d d' tr : XI d tr -> (forall z, spent tasks d z -> spent tasks d' z) -> XI d' tr.
+Proof. intros [A B] H. split; auto. Qed.
+
 (* ---------- execution ---------- *)
 Lemma start_task_RI r k :
   RI (r_d r) (r_tr r) -> (forall x, In x (static_deps k) -> finished_in (r_tr r) x) ->
@@ -364,41 +391,77 @@ Proof.
   intros H. unfold finish, emit. simpl. apply ordered_app_noexec; auto. simpl. apply noexec_teardowns.
 Qed.
 
-Lemma handed_of_post d d' k : disp_post tasks d d' (DTask k) -> handed d' k /\ d_cur d' = Some k.
+Lemma handed_of_post d d' k : disp_post tasks d d' (DTask k) -> handed d' k /\ d_cur d' = Some k /\ ~ spent tasks d k.
 Proof.
-  intros (_ & _ & _ & _ & _ & C & D1 & D2 & D3 & D4 & D5). split; auto. split; auto.
+  intros (_ & _ & _ & _ & _ & _ & N & C & D1 & D2 & D3 & D4 & D5). split; [split; auto|auto].
 Qed.
 
-Lemma serial_ordered fuel : forall r last,
-  RI (r_d r) (r_tr r) -> Pre (r_d r) -> (forall k, last = Some k -> st_of (r_d r) k <> SNone) ->
-  ordered (r_tr (fst (serial fuel r last))).
+Lemma process_result_pc r k z :
+  n_pc (node_of (r_d (process_result r k)) z) = n_pc (node_of (r_d r) z).
 Proof.
-  induction fuel as [|fuel IH]; intros r last HR HP Hl; cbn [Runner.serial].
-  { simpl. apply (ri_ord _ _ HR). }
-  destruct (r_stop r). { cbn [fst]. apply finish_ordered. apply (ri_ord _ _ HR). }
+  unfold Runner.process_result. destruct (t_outcome (get_task k)); simpl; auto; apply set_status_pc.
+Qed.
+Lemma process_result_execs r k : execs (r_tr (process_result r k)) = execs (r_tr r).
+Proof.
+  unfold Runner.process_result. destruct (t_outcome (get_task k)); simpl; auto;
+    rewrite execs_app; simpl; rewrite app_nil_r; reflexivity.
+Qed.
+
+Lemma finish_execs r : execs (r_tr (finish r)) = execs (r_tr r).
+Proof.
+  unfold finish, emit. simpl. rewrite execs_app. simpl.
+  assert (H : execs (map ETeardown (rev (r_td r))) = []) by (induction (rev (r_td r)); simpl; auto).
+  rewrite H, app_nil_r. reflexivity.
+Qed.
+
+Lemma serial_inv fuel : forall r last,
+  RI (r_d r) (r_tr r) -> XI (r_d r) (r_tr r) -> Pre (r_d r) ->
+  (forall k, last = Some k -> st_of (r_d r) k <> SNone) ->
+  let r' := fst (serial fuel r last) in ordered (r_tr r') /\ NoDup (execs (r_tr r')).
+Proof.
+  induction fuel as [|fuel IH]; intros r last HR HX HP Hl; cbn [Runner.serial]; cbv zeta.
+  { simpl. split; [apply (ri_ord _ _ HR)|apply (xi_nodup _ _ HX)]. }
+  assert (Hfin : forall r0, RI (r_d r0) (r_tr r0) -> XI (r_d r0) (r_tr r0) ->
+                 ordered (r_tr (finish r0)) /\ NoDup (execs (r_tr (finish r0)))).
+  { intros r0 R0 X0. split; [apply finish_ordered; apply (ri_ord _ _ R0)|rewrite finish_execs; apply (xi_nodup _ _ X0)]. }
+  destruct (r_stop r). { cbn [fst]. apply Hfin; auto. }
   destruct (disp_send tasks wake_rank calc_rank (S fuel) (r_d r) last) as [y d] eqn:Ed.
   pose proof (disp_send_spec tasks wake_rank calc_rank _ _ _ _ _ (ri_inv _ _ HR) HP (ri_res _ _ HR) (ri_q _ _ HR) Hl Ed) as Hpost.
   pose proof (RI_disp _ _ _ _ HR Hpost) as HR'.
+  assert (HX' : XI d (r_tr r)).
+  { eapply XI_pc; [exact HX|]. destruct Hpost as (_ & _ & _ & _ & _ & Sp & _). exact Sp. }
   destruct y as [k| | |path|].
-  - destruct (handed_of_post _ _ _ Hpost) as [HK Hcur].
+  - destruct (handed_of_post _ _ _ Hpost) as (HK & Hcur & Hns).
     destruct (select_task (with_d r d) k) as [b r1] eqn:Es.
     pose proof (select_task_post (with_d r d) k b r1 HR' HK Es) as (R1 & P1 & S1 & Pc1 & C1 & D1).
+    pose proof (select_task_execs tasks continue_ always _ _ _ _ Es) as Ex1. simpl in Ex1.
+    assert (X1 : XI (r_d r1) (r_tr r1)).
+    { destruct HX' as [xa xb]. split; rewrite Ex1; auto. intros z Hz. eapply spent_pc; [apply Pc1|]. apply xa. exact Hz. }
     destruct b.
     + assert (R2 : RI (r_d (start_task r1 k)) (r_tr (start_task r1 k))) by (apply start_task_RI; auto).
+      assert (Hk : ~ In k (execs (r_tr r))) by (intro H; apply Hns; apply (xi_spent _ _ HX); exact H).
+      assert (X2 : XI (r_d (start_task r1 k)) (r_tr (start_task r1 k))).
+      { unfold Runner.start_task. simpl. destruct X1 as [xa xb]. split; rewrite execs_app; simpl.
+        - intros z Hz. apply in_app_iff in Hz. destruct Hz as [Hz|[<-|[]]]; auto.
+          apply (select_true_spent (with_d r d) k r1 HR' HK Es).
+        - rewrite Ex1 in *. apply NoDup_snoc; auto. }
       destruct (is_interrupt tasks k) eqn:Ei.
-      * cbn [fst]. apply finish_ordered. apply (ri_ord _ _ R2).
+      * cbn [fst]. apply Hfin; auto.
       * assert (He2 : early (n_pc (node_of (r_d (start_task r1 k)) k)) = false).
         { unfold Runner.start_task. simpl. rewrite Pc1. apply (handed_early _ _ HK). }
         assert (HPx2 : PreX tasks (r_d (start_task r1 k)) k).
         { unfold Runner.start_task. simpl. intros z Hz Hpc. apply P1. exact Hpc. }
         destruct (process_result_post (start_task r1 k) k R2 He2 HPx2) as [(R3 & P3 & S3)|Hint].
-        -- apply IH; auto. intros k' E. inversion E; subst. exact S3.
+        -- apply IH; auto.
+           ++ destruct X2 as [xa xb]. split; rewrite process_result_execs; auto.
+              intros z Hz. eapply spent_pc; [apply process_result_pc|]. apply xa. exact Hz.
+           ++ intros k' E. inversion E; subst. exact S3.
         -- unfold Runner.is_interrupt in Ei. rewrite Hint in Ei. discriminate.
     + apply IH; auto. intros k' E. inversion E; subst. exact S1.
-  - cbn [fst]. apply finish_ordered. apply (ri_ord _ _ HR').
-  - cbn [fst]. apply finish_ordered. apply (ri_ord _ _ HR').
-  - cbn [fst]. apply finish_ordered. apply (ri_ord _ _ HR').
-  - cbn [fst]. apply (ri_ord _ _ HR').
+  - cbn [fst]. apply Hfin; auto.
+  - cbn [fst]. apply Hfin; auto.
+  - cbn [fst]. apply Hfin; auto.
+  - cbn [fst]. split; [apply (ri_ord _ _ HR')|apply (xi_nodup _ _ HX')].
 Qed.
 
 Lemma RI_init sel : RI (disp_init sel) [].
@@ -416,18 +479,37 @@ Proof.
   - constructor.
 Qed.
 
+Lemma XI_init sel : XI (disp_init sel) [].
+Proof. split; simpl; [intros k []|constructor]. Qed.
+
+Lemma serial_init_inv fuel sel :
+  let r' := fst (serial fuel (r_init sel) None) in ordered (r_tr r') /\ NoDup (execs (r_tr r')).
+Proof.
+  apply serial_inv; simpl.
+  - apply RI_init.
+  - apply XI_init.
+  - intros z Hz. simpl in Hz. discriminate.
+  - intros k E'. discriminate.
+Qed.
+
 Theorem serial_dep_order fuel sel :
   ordered (fst (run_serial tasks wake_rank calc_rank continue_ always fuel sel)).
 Proof.
   unfold run_serial.
-  pose proof (serial_ordered fuel (r_init sel) None) as H.
+  pose proof (serial_init_inv fuel sel) as H. cbv zeta in H.
   destruct (serial fuel (r_init sel) None) as [r s] eqn:E. simpl in *.
-  apply ordered_app_noexec.
-  - apply H; simpl.
-    + apply RI_init.
-    + intros z Hz. simpl in Hz. discriminate.
-    + intros k E'. discriminate.
-  - destruct s; reflexivity.
+  apply ordered_app_noexec; [apply H|destruct s; reflexivity].
+Qed.
+
+(* no task is executed twice in a run *)
+Theorem serial_exec_once fuel sel :
+  NoDup (execs (fst (run_serial tasks wake_rank calc_rank continue_ always fuel sel))).
+Proof.
+  unfold run_serial.
+  pose proof (serial_init_inv fuel sel) as H. cbv zeta in H.
+  destruct (serial fuel (r_init sel) None) as [r s] eqn:E. simpl in *.
+  rewrite execs_app. replace (execs (stop_marker s)) with (@nil name) by (destruct s; reflexivity).
+  rewrite app_nil_r. apply H.
 Qed.
 
 End R.
